@@ -16,7 +16,7 @@ import PV.C02.Model
   * Every action's `(location..end_location)` becomes `(L σ ts, R σ rest)` with `ts` the cursor where the
     production starts and `rest` the cursor where it ends.  The exceptions are copied from the code as it is:
     parenthesised atoms return the inner node unchanged; `NamedExpr` ends at `value.end()`; a lambda without
-    parameters gives its `Arguments` the range of the whole lambda; an `ArgWithDefault` keeps the range of the
+    parameters gives its `Arguments` the empty range right behind the keyword; an `ArgWithDefault` keeps the range of the
     bare parameter; a generator expression as sole call argument is ranged without the call's parentheses;
     every piece of an f-string literal carries the range of that literal, plain pieces that are merged by
     `parse_strings` the range of the whole concatenation; the expression of a replacement field is parsed
@@ -403,9 +403,11 @@ def parseRLambda (σ : SpanTab) : Nat → List Tok → PR RExpr
         (match parseRTest σ f r with
          | some (body, r') =>
            let rg : Rg := (P σ ts, R σ r')
-           -- `Arguments::empty(optional_range(location, end_location))` when there is no parameter list
+           -- no parameter list: `Arguments::empty(optional_range(args_pos, args_pos))` with `args_pos = location +
+           -- TextSize::of("lambda")` — the empty text right behind the keyword, i.e. at the END of the keyword token
+           -- (the action hard-codes the keyword's length; the lexer's `lambda` token is exactly those six bytes)
            let argsRg : Rg := match ts with
-             | .op .colon :: _ => rg
+             | .op .colon :: _ => (R σ ts, R σ ts)
              | _ => (L σ ts, R σ (.op .colon :: r))
            some (.lambda rg argsRg ps.posonly ps.args ps.vararg ps.kwonly ps.kwarg body, r')
          | none => none)
